@@ -70,6 +70,7 @@ From Flocq Require Import Core BinarySingleNaN PrimFloat.
 From PV Require Import proofs.FloatFacts proofs.WrapFloat.
 From PV Require Import proofs.PackingFacts.
 From PV Require Import gen.GenFns model.Iter model.Pipeline proofs.ListLemmas proofs.SrcCell proofs.SrcState.
+From PV Require Import proofs.SourceHeadlinesCell.
 
 Theorem C15_F_wrap_range :
   forall x : F, is_finite (Prim2B x) = true -> (Rabs (B2R (Prim2B x)) <= 2251799813685248)%R ->
@@ -141,4 +142,18 @@ Theorem C15_state_source_translated :
     translated_gen_lj_score = true /\ translated_gen_lj_final = true.
 Proof. exact state_source_translated. Qed.
 Print Assumptions C15_state_source_translated.
+
+
+Theorem C15_source_wrap_spec :
+  forall x : R, (-1 / 2 <= gen_wrap NumR x < 1 / 2)%R /\ (exists n : Z, (gen_wrap NumR x - x)%R
+    = IZR n).
+Proof. exact source_wrap_spec. Qed.
+Print Assumptions C15_source_wrap_spec.
+
+Theorem C15_source_positions_one_per_operation :
+  forall (syms : list tfR) (s : siteR), length (gen_positions NumR syms s) = length syms /\
+    (forall (k : nat) (d : tfR), k < length syms -> nth k (gen_positions NumR syms s) d =
+    placement (nth k syms d) s).
+Proof. exact source_positions_one_per_operation. Qed.
+Print Assumptions C15_source_positions_one_per_operation.
 
